@@ -5,11 +5,14 @@ import (
 	"database/sql"
 	"encoding/json"
 	"fmt"
+	"io"
 	"net"
+	"net/http"
 	"os"
 	"os/exec"
 	"strings"
 	"sync"
+	"sync/atomic"
 	"time"
 
 	"github.com/akrennmair/updog"
@@ -31,7 +34,12 @@ type server struct {
 	cl    proto.QueryServiceClient
 	done  chan struct{}
 	exitS string
+	debug string        // address of the debug HTTP listener (/metrics)
+	quit  chan struct{} // closed by stop(): ends the metrics scraper
+	env   string        // extra environment of this start, for the record
 }
+
+var serverStarts atomic.Int64
 
 func freePort() int {
 	l, err := net.Listen("tcp", "127.0.0.1:0")
@@ -47,12 +55,19 @@ func startServer(file string, cache bool, preload bool) *server {
 		infra("updog binary missing at %s (built by ./check)", updogBin)
 	}
 	for attempt := 0; attempt < 5; attempt++ {
-		s := &server{addr: fmt.Sprintf("127.0.0.1:%d", freePort()), done: make(chan struct{})}
-		args := []string{"server", "-l", s.addr, "-d", fmt.Sprintf("127.0.0.1:%d", freePort()), "-f", file, fmt.Sprintf("-c=%v", cache), fmt.Sprintf("-p=%v", preload)}
+		s := &server{addr: fmt.Sprintf("127.0.0.1:%d", freePort()), done: make(chan struct{}), quit: make(chan struct{})}
+		s.debug = fmt.Sprintf("127.0.0.1:%d", freePort())
+		args := []string{"server", "-l", s.addr, "-d", s.debug, "-f", file, fmt.Sprintf("-c=%v", cache), fmt.Sprintf("-p=%v", preload)}
 		s.cmd = exec.Command(updogBin, args...)
+		s.cmd.Env = os.Environ()
+		nth := serverStarts.Add(1)
 		if base := os.Getenv("VERIF_RACE_LOG"); base != "" {
 			// a -race build of the server reports into the same log family as the harness itself
-			s.cmd.Env = append(os.Environ(), "GORACE=log_path="+base+".server exitcode=0")
+			s.cmd.Env = append(s.cmd.Env, "GORACE=log_path="+base+".server exitcode=0")
+		} else if e := []string{"", "GOMAXPROCS=1", "", "GOMAXPROCS=3", "GOMEMLIMIT=64MiB"}[(nth-1)%5]; e != "" {
+			// the answers must not depend on the resources the server process happens to be given
+			s.cmd.Env = append(s.cmd.Env, e)
+			s.env = e
 		}
 		var errb strings.Builder
 		s.cmd.Stderr = &errb
@@ -65,8 +80,13 @@ func startServer(file string, cache bool, preload bool) *server {
 			close(s.done)
 		}()
 		// the harness's own client must not be the limit: large responses are legitimate
-		conn, err := grpc.NewClient(s.addr, grpc.WithTransportCredentials(insecure.NewCredentials()),
-			grpc.WithDefaultCallOptions(grpc.MaxCallRecvMsgSize(1<<30), grpc.MaxCallSendMsgSize(1<<30)))
+		dialOpts := []grpc.DialOption{grpc.WithTransportCredentials(insecure.NewCredentials()),
+			grpc.WithDefaultCallOptions(grpc.MaxCallRecvMsgSize(1<<30), grpc.MaxCallSendMsgSize(1<<30))}
+		if nth%2 == 1 {
+			// request metadata is client-controlled too: an application name that is not UTF-8
+			dialOpts = append(dialOpts, grpc.WithUserAgent("caf\xe9-dashboard/1.0 (\xff\xfe)"))
+		}
+		conn, err := grpc.NewClient(s.addr, dialOpts...)
 		if err != nil {
 			infra("grpc client: %v", err)
 		}
@@ -96,6 +116,7 @@ func startServer(file string, cache bool, preload bool) *server {
 			// exited with "failed to listen" and somebody else answered the probe
 			time.Sleep(150 * time.Millisecond)
 			if s.alive() {
+				go s.scrape()
 				return s
 			}
 		}
@@ -114,7 +135,30 @@ func (s *server) alive() bool {
 	}
 }
 
+// scrape polls the debug listener's /metrics like a monitoring system would, for as long as the server runs
+func (s *server) scrape() {
+	cl := &http.Client{Timeout: 2 * time.Second}
+	for {
+		select {
+		case <-s.quit:
+			return
+		case <-s.done:
+			return
+		case <-time.After(15 * time.Millisecond):
+		}
+		if resp, err := cl.Get("http://" + s.debug + "/metrics"); err == nil {
+			io.Copy(io.Discard, resp.Body)
+			resp.Body.Close()
+		}
+	}
+}
+
 func (s *server) stop() {
+	select {
+	case <-s.quit:
+	default:
+		close(s.quit)
+	}
 	if s.conn != nil {
 		s.conn.Close()
 	}
@@ -333,6 +377,42 @@ func runSrvCase(o *Oracle, c *SrvCase, rep *Report) {
 			if got != want {
 				rep.Violate(Violation{Kind: "input", Signature: "C13:grpc-dsn-rows-mismatch", What: fmt.Sprintf("grpc DSN query %q", trunc(unhx(q.Text), 200)), Expected: trunc(want, 1000), Actual: trunc(got, 1000), Case: c})
 			}
+		}
+		// connection churn: no idle connection is kept, several goroutines query, and handles on the same target come
+		// and go meanwhile; every answer is still the model's
+		q := genSqlQuery(r, pool, false)
+		text := unhx(q.Text)
+		want := o.Ask("idx rows " + fmt.Sprintf("%d %s %s", len(q.Tree.GB), strings.Join(q.Tree.GB, " "), ptToToks(q.Tree.T)))
+		db.SetMaxIdleConns(0)
+		var wg sync.WaitGroup
+		var bad atomic.Value
+		deadline := time.Now().Add(1500 * time.Millisecond)
+		for g := 0; g < 4; g++ {
+			wg.Add(1)
+			go func(g int) {
+				defer wg.Done()
+				for k := 0; k < 400 && time.Now().Before(deadline) && bad.Load() == nil; k++ {
+					if g == 3 { // a second handle on the same target, opened, used and closed over and over
+						db2, err := sql.Open("updog", "grpc://"+s.addr)
+						if err == nil {
+							db2.SetMaxIdleConns(0)
+							if got := rowsString(db2, text); got != want {
+								bad.Store(got)
+							}
+							db2.Close()
+						}
+						continue
+					}
+					if got := rowsString(db, text); got != want {
+						bad.Store(got)
+					}
+				}
+			}(g)
+		}
+		wg.Wait()
+		rep.Count("grpc-dsn-churn")
+		if b := bad.Load(); b != nil {
+			rep.Violate(Violation{Kind: "schedule", Signature: "C13:grpc-dsn-rows-mismatch", What: fmt.Sprintf("grpc DSN query %q under connection churn (no idle connections, 4 goroutines, a second handle opened and closed meanwhile)", trunc(text, 200)), Expected: trunc(want, 1000), Actual: trunc(b.(string), 1000), Case: c})
 		}
 	}
 }
@@ -665,6 +745,41 @@ func runC14(rep *Report, r *Rng, tier string) {
 						srv.stop()
 						srv = startServer(path, true, false)
 					}
+					break
+				}
+			}
+			// batches of several hundred well-formed queries, two of them at the same time (a per-request budget of any
+			// kind must not turn a large request into one that is never answered)
+			for _, nq := range []int{257, 300, 1000} {
+				req := &proto.QueryRequest{}
+				for k := 0; k < nq; k++ {
+					req.Queries = append(req.Queries, qcaseToProto(&QCase{E: probe.E}, 0))
+				}
+				type ans struct {
+					res   string
+					alive bool
+				}
+				ch := make(chan ans, 2)
+				for g := 0; g < 2; g++ {
+					go func() {
+						res, alive := srv.query(req)
+						ch <- ans{res, alive}
+					}()
+				}
+				ok := true
+				for g := 0; g < 2; g++ {
+					a := <-ch
+					rep.Count("large-batch-requests")
+					if !a.alive || !strings.HasPrefix(a.res, "ok id=1 ") || strings.Count(a.res, "id=") != nq {
+						if ok {
+							rep.Violate(Violation{Kind: "input", Signature: "C14:large-batch", What: fmt.Sprintf("a batch of %d well-formed queries (two such requests at once): %s", nq, srv.exitS), Expected: fmt.Sprintf("%d results", nq), Actual: trunc(a.res, 200), Case: map[string]any{"batch": nq}})
+						}
+						ok = false
+					}
+				}
+				if !ok {
+					srv.stop()
+					srv = startServer(path, true, false)
 					break
 				}
 			}
